@@ -8,6 +8,7 @@ import (
 
 	"pgregory.net/rapid"
 
+	"github.com/MichaelMure/git-bug/cache"
 	"github.com/MichaelMure/git-bug/entities/bug"
 	"github.com/MichaelMure/git-bug/entities/identity"
 	"github.com/MichaelMure/git-bug/entity"
@@ -252,8 +253,8 @@ func TestC10Cache(t *testing.T) {
 	}
 	gen := func(t *rapid.T) cacheCase {
 		c := cacheCase{Seed: rapid.Uint64().Draw(t, "seed")}
-		c.Ops = append(c.Ops, GenCreateSpec(1, 0).Draw(t, "create"))
-		c.Ops = append(c.Ops, rapid.SliceOfN(GenOpSpec(1, 0), 1, Scale(25, 80)).Draw(t, "ops")...)
+		c.Ops = append(c.Ops, GenCreateSpec(3, 0).Draw(t, "create"))
+		c.Ops = append(c.Ops, rapid.SliceOfN(GenOpSpec(3, 0), 1, Scale(25, 80)).Draw(t, "ops")...) // three authors, interleaved in the staging area
 		c.Chunks = rapid.SliceOfN(rapid.IntRange(1, 6), 1, 8).Draw(t, "chunks")
 		return c
 	}
@@ -264,7 +265,16 @@ func TestC10Cache(t *testing.T) {
 		}
 		defer w.Close()
 		r := w.R[0]
-		me, _ := r.Cache.GetUserIdentity()
+		user, _ := r.Cache.GetUserIdentity()
+		people := []*cache.IdentityCache{user}
+		for k := 1; k < 3; k++ {
+			ic, err := r.Cache.Identities().NewRaw(fmt.Sprintf("co-author %d", k), "co@example.org", "", "", nil, nil)
+			if err != nil {
+				tb.Fatalf("harness: %v", err)
+			}
+			people = append(people, ic)
+		}
+		me := people[c.Ops[0].Author%len(people)]
 		bc, _, err := r.Cache.Bugs().NewRaw(me, c.Ops[0].Time, c.Ops[0].Title, c.Ops[0].Message, nil, c.Ops[0].Meta)
 		if err != nil {
 			return // refused by validation
@@ -273,6 +283,7 @@ func TestC10Cache(t *testing.T) {
 		var kinds []string
 		applied, inChunk, chunk := 0, 0, 0
 		for _, s := range c.Ops[1:] {
+			me := people[s.Author%len(people)]
 			snap := bc.Snapshot()
 			ops := snap.Operations
 			var prev []Built
@@ -312,9 +323,18 @@ func TestC10Cache(t *testing.T) {
 			kinds = append(kinds, s.Kind)
 			inChunk++
 			if inChunk >= c.Chunks[chunk%len(c.Chunks)] {
+				pre := ProjectSnapshot(bc.Snapshot())
 				if err := bc.Commit(); err != nil {
 					rep.Fail(tb, "C10/cache/commit-fails/"+Normalize(err.Error()), err.Error(), c)
 					return
+				}
+				// storing the staged operations changes nothing in what the bug is
+				post := ProjectSnapshot(bc.Snapshot())
+				pre.MustActors, pre.MayActors = pre.Actors, pre.Actors
+				if aspect, detail := refmodel.Diff(pre, post); aspect != "" {
+					if rep.Fail(tb, "C10/cache/commit-changes-the-compiled-state/"+aspect, "(want = the bug before Commit, got = the same bug right after Commit)\n"+detail, c) {
+						return
+					}
 				}
 				inChunk = 0
 				chunk++
